@@ -44,7 +44,7 @@ MachineAgrees == RunK(hist) = stk
 Sound == stk = <<>> => LET ds == AsmDocs(hist, 1, <<>>) IN Kinds(DocEvents(ds)) = hist /\ Len(ds) = ndocs
 \* an open stream is a proper prefix of a well-formed one: closing what is open (a null for a dangling key) completes it
 Closer(s) == LET F[i \in 0..Len(s)] == IF i = 0 THEN <<>>
-                                      ELSE (CASE s[i] = "A" -> <<"]">> [] s[i] = "O" -> <<"}">> [] OTHER -> <<"null", "}">>) \o F[i - 1]
+                                      ELSE (CASE s[i] = "A" -> <<"]">> [] s[i] = "O" -> <<"}">> [] OTHER -> (IF i = Len(s) THEN <<"null", "}">> ELSE <<"}">>)) \o F[i - 1]
              IN F[Len(s)]
 PrefixOfWellFormed == WellFormed(hist \o Closer(stk))
 
